@@ -205,7 +205,7 @@ func c15Recursive(r *mon.Rng) *model.Schema {
 const c15RawMarker = "\uE000"
 
 func c15Keys(r *mon.Rng) *model.Schema {
-	keys := []string{"caf" + c15RawMarker, c15RawMarker + c15RawMarker + "x", "a\"b", "back\\slash", "tab\there", "nl\nx", "é", "日本", "𝄞", "", " ", "a/b", "\u0001", "q\"\\\"", "ü\"", "{", "}", ":", ","}
+	keys := []string{"caf" + c15RawMarker, c15RawMarker + c15RawMarker + "x", "a\"b", "back\\slash", "tab\there", "nl\nx", "é", "日本", "𝄞", "", " ", "a/b", "\u0001", "q\"\\\"", "ü\"", "{", "}", ":", ",", "vt\u000b", "\u001f", "so\u000e\u000f", "bs\bff\f", "\u001a\u001e"}
 	mon.Shuffle(r, keys)
 	o := model.Obj()
 	for _, k := range keys[:r.Range(1, 5)] {
@@ -223,6 +223,10 @@ func c15Keys(r *mon.Rng) *model.Schema {
 }
 
 func scalarOrNested(r *mon.Rng, k string) *model.Node {
+	if r.Chance(1, 5) {
+		// string values spelled with every short escape JSON has
+		return &model.Node{Kind: model.KString, KeyPos: -1, Lit: mon.Pick(r, []string{`"x\b\fy"`, `"\b"`, `"form\ffeed"`, `"all \" \\ \/ \b \f \n \r \t"`, `"\u000B\u001F"`})}
+	}
 	if r.Chance(1, 4) {
 		return model.Obj(model.P(k+"'", model.Int("1")))
 	}
